@@ -73,8 +73,9 @@ Proof. exact reachable_roundtrip. Qed.
 Theorem C12_reachable_genesis_defined : forall g ops s, run (init g) ops = RunOk s -> genesis_defined s.
 Proof. exact reachable_genesis_defined. Qed.
 
-(* THE EXPORTED GENESIS IS VALID, for every state reachable inside the configuration domain (valid parameter sets kept valid
-   by governance, validated inflation schedule, block times after the zero time): every stored record passes its module's
+(* THE EXPORTED GENESIS IS VALID, for every state reachable inside the configuration domain (valid genesis parameter
+   sets -- governance keeps them valid by itself: a proposal is executed only if every change passes its per-key validator,
+   and those are what Params.Validate checks --, validated inflation schedule, block times after the zero time): every stored record passes its module's
    Validate -- an inductive invariant over every handler and hook, including the end-of-block price sweep, the removal of
    emptied deposits, and every deadline written as now + delay -- so validate (export s) accepts every section. *)
 Theorem C12_reachable_export_valid : forall g ops s,
